@@ -15,6 +15,8 @@ CONSTANTS
     MaxReopens = 0
     MaxFmtFail = 0
     FmtFails = {}
+    SepForms = {"nl"}
+    WriterEnds = {"sep"}
     Ticks = {"same", "next"}
     RetryTicks = {"same"}
     Phantoms = {0}
